@@ -1,8 +1,7 @@
 SPECIFICATION Spec
-CONSTANTS Desc = {1, 2, 3}
+CONSTANTS Desc = {1, 2}
   OnCancel = "kill-tree"
   ReapedGroupKill = TRUE
-  WaitDelay = TRUE
-INVARIANTS Emit
-VIEW EmitView
+  WaitDelay = FALSE
+PROPERTIES StopReturns
 CHECK_DEADLOCK FALSE
